@@ -162,16 +162,51 @@ def shard_witness(which, part, nparts, seed, members):
             code = e1.enc_arm(word) if which == 'arm' else e1.enc_thumb(word, True) + b'\x00\xbf'
             case = gen.step_case(rng, cfgname, which != 'arm', code, hooked=rng.random() < 0.3)
             check_case(acc, case, 'witness/' + which, ('wit', which, cfgname, word, case['state']['cpsr']))
+            if row is not None and row.name.startswith(('LDR', 'STR', 'LDM', 'STM', 'PUSH', 'POP', 'SRS', 'RFE', 'LDC', 'STC', 'PLD', 'SWP')):
+                # every load / store encoding once more under stage-2 translation: a stage-2 fault is reported to Hyp mode with the instruction
+                # syndrome the executing opcode object supplies (a code path nothing else reaches)
+                for hooked in (False, True):
+                    case = gen.step_case(rng, 'v7-virt', which != 'arm', code, hooked=hooked, mode=rng.choice(('svc', 'usr', 'sys', 'irq')), ns=True, mmu=False, code_base=0x8000,
+                                         it=0)
+                    if rng.random() < 0.75 and (case['state']['R.PC'] >> 21) == 0:
+                        gen.stage2_map(rng, case)
+                    else:
+                        gen.force_stage2(rng, case['state'])
+                    check_case(acc, case, 'witness-stage2/' + which, ('wit2', which, word, hooked, case['state']['cpsr'], case['state']['vtcr']))
     return acc
 
 
-ALL_CFG = list(gen.CONFIGS)
+def shard_stage2_arm(part, nparts, seed, members):
+    """ARM load / store encodings under stage-2 translation (quick tier: paths of armulator's ARM decoder alone, 0.2 s to enumerate)"""
+    from vf.props import e1prop, decode_common as dc
+    from vf.ref.enc import decode as table_decode
+    acc = Acc()
+    rng = random.Random(seed)
+    for j, (w0, trace) in enumerate(e1prop.decoder_regions()['arm']):
+        if j % nparts != part:
+            continue
+        for word in [w0] + dc.members(w0, trace, 32, rng, members):
+            row, _ = table_decode(e1prop.TABLES['arm'], word)
+            if row is None or not row.name.startswith(('LDR', 'STR', 'LDM', 'STM', 'PUSH', 'POP', 'SRS', 'RFE', 'LDC', 'STC', 'PLD', 'SWP')):
+                continue
+            if (word >> 28) < 14:
+                word = (word & 0x0FFFFFFF) | (0xE << 28)
+            case = gen.step_case(rng, 'v7-virt', False, e1.enc_arm(word), hooked=rng.random() < 0.6, mode=rng.choice(('svc', 'usr', 'sys', 'irq')), ns=True, mmu=False, code_base=0x8000)
+            if rng.random() < 0.75 and (case['state']['R.PC'] >> 21) == 0:
+                gen.stage2_map(rng, case)
+            else:
+                gen.force_stage2(rng, case['state'])
+            check_case(acc, case, 'witness-stage2/arm', ('wit2', 'arm', word, case['state']['cpsr'], case['state']['vtcr']))
+    return acc
+
+
+ALL_CFG = [c for c in gen.CONFIGS if c != 'v6-vec']
 
 
 def run(ctx):
     ctx.rule = ('emulate_cycle() on: every 16-bit Thumb halfword (32-bit starters paired with a generated second halfword) in each IT '
                 'position {outside, first, middle, last}; one witness + solver-generated members for every joint decoder region of the 32-bit Thumb '
-                'space (and of the ARM space in the thorough tier); random / test-suite-derived ARM and 32-bit Thumb words; random 2-20 step programs, half of them with IRQ / FIQ / reset / event injections between steps; '
+                'space (and of the ARM space in the thorough tier); random / test-suite-derived ARM and 32-bit Thumb words; every load / store path of both decoders once more under stage-2 translation (HCR.VM = 1, Non-secure PL1/PL0); random 2-20 step programs, half of them with IRQ / FIQ / reset / event injections between steps; '
                 'each in a generated valid state (every mode, MPU/MMU on and off, registers pointing into / next to / away from memory, '
                 'code at 0, mid-space, high vectors and the last bytes below 2^32) on configurations ' + ', '.join(ALL_CFG) + '. '
                 'Oracle: validity predicate - the call returns (completed or architectural exception taken) or raises NotImplementedError '
@@ -200,6 +235,7 @@ def run(ctx):
     from vf.props import c07
     c07.SPEC32.compute_joint()
     tasks += [(shard_witness, ('t32', i, 8, ctx.shard_seed(k + i), ctx.n(6, 40))) for i in range(8)]
+    tasks += [(shard_stage2_arm, (i, 4, ctx.shard_seed(k + 30 + i), ctx.n(4, 40))) for i in range(4)]
     if not ctx.quick:
         from vf.props import c06
         c06.SPEC.compute_joint()
